@@ -68,6 +68,14 @@ def check(rep, an, tier):
                       config=res.config, msg=f"degrees {deg}")
         D.consistency(rep, res, entry)
         R.rule_type_errors(rep, res, "SHAPE", "R-SHAPE", entry)
+        for tv in res.events("abs_tolerance"):
+            at = tv.d.get("atol")
+            if tv.d.get("dimensioned") and not (at is not None and at.known and at.const == 0):
+                rep.violated("R-TYPESTATE", "sources on their own domain are always re-aligned with the filters", where=tv.loc, construct=tv.text(),
+                             entry=entry, config=res.config,
+                             msg="whether the source domain equals the filter domain is decided with an absolute tolerance on domain coordinates: "
+                                 "grids in small units (metres) shifted by a few nm count as identical, the sources are not re-aligned and the "
+                                 "capture matrix A is not the integral of filter × source")
         from .C01 import gradient_weights
         gradient_weights(rep, res, entry)
         R.rule_dtype_casts(rep, res, entry)
